@@ -333,6 +333,16 @@ pub mod verif_hooks {
         };
     }
     pub use crate::zalsa_local::verif_hooks as edges;
+    /// Tracked-struct protocol hooks (the `ts` trace class is switched on with
+    /// `trace::set_struct_tracing`).
+    pub mod structs {
+        /// Raise the generation of every freed tracked-struct id to `generation`.
+        pub fn age_free_lists(db: &dyn crate::Database, generation: u32) {
+            for ingredient in db.zalsa().ingredients() {
+                ingredient.verif_age_free_list(generation);
+            }
+        }
+    }
 }
 
 pub mod prelude {
